@@ -1950,7 +1950,7 @@ theorem runHist_fifo (evs : List Ev) (d : Dev) (h : NoClientLogin d) (hev : ∀ 
     | enq com targets cid tele al =>
       unfold runHist
       dsimp only
-      obtain ⟨hcom, hcid⟩ : com ≠ 0 ∧ cid ≠ 0 := hev _ (by simp)
+      obtain ⟨hcom, hcid⟩ : com ≠ 0 ∧ cid ≠ 0 := hev (Ev.enq com targets cid tele al) (by simp)
       obtain ⟨l, h1, h2, h3⟩ := enqueue_spec d com targets cid tele al
       have hn : NoClientLogin (Pm.Daemon.enqueue d com targets cid tele al).1 := by
         unfold NoClientLogin; rw [h1]
